@@ -169,6 +169,10 @@ type c18Case struct {
 	// which therefore returns an error: no session, so no keepalive; the application then connects again (hook fine) and
 	// that session must get its keepalives at the configured rate, not more
 	HookFails bool `json:"hook_fails,omitempty"`
+	// LongIdle (fixed cases, clear-text TCP or STARTTLS): one keepalive is written on a session whose interval is an
+	// hour, then nothing happens for 5.6 s: a keepalive must leave the connection as it found it (a deadline left
+	// armed by it would end a healthy session after 5 s), so a stanza sent then is still routed
+	LongIdle bool `json:"long_idle,omitempty"`
 }
 
 func genC18(t *rapid.T) c18Case {
@@ -498,6 +502,33 @@ func runC18E2E(c c18Case) vh.Result {
 		}
 		return
 	}
+	if c.LongIdle {
+		res.Label("idle-for-seconds-after-a-keepalive")
+		if err := wrap.Ping(); err != nil {
+			res.Fail("harness-ping", "%s: Ping on a healthy session failed: %v", desc, err)
+			return res
+		}
+		time.Sleep(5600 * time.Millisecond)
+		if n := rec.count(xmpp.StateDisconnected); n > 0 {
+			_, errs, _ := rec.snapshot()
+			res.Fail("session-lost-after-a-keepalive", "%s: 5.6 s after a single keepalive on an otherwise idle, healthy session the session was reported lost (errors %v)", desc, errs)
+			return res
+		}
+		close(probe)
+		if !waitFor(vh.Margin(3*time.Second), func() bool {
+			_, _, pk := rec.snapshot()
+			for _, p := range pk {
+				if _, id := packetID(p); id == "c18-probe" {
+					return true
+				}
+			}
+			return false
+		}) {
+			res.Fail("t/session-dead-after-a-keepalive", "%s: a message sent 5.6 s after a single keepalive was not routed", desc)
+		}
+		go func() { _ = cl.Disconnect() }()
+		return res
+	}
 	if c.PingFailsLate {
 		res.Label("ping-fails-after-reconnection")
 		released := false
@@ -644,4 +675,14 @@ var c18 = vh.Define(&vh.Def[c18Case]{
 })
 
 func TestC18_keepalive(t *testing.T) { c18.Check(t) }
+
+// TestC18_longidle: two fixed cases (clear text, STARTTLS), run by the first shard only: they take six seconds each.
+func TestC18_longidle(t *testing.T) {
+	if sh, _ := vh.Shard(); sh != 0 {
+		return
+	}
+	for _, tls := range []bool{false, true} {
+		c18.RunCase(t, c18Case{IntervalMs: 3600000, RunFor: 1, EndToEnd: true, TLS: tls, LongIdle: true})
+	}
+}
 func TestC18_Regress(t *testing.T)   { vh.Regress(t, "C18") }
